@@ -48,10 +48,13 @@ pub fn rand_history(r: &mut Rng, nmax: usize) -> (Vec<Op>, String) {
     let poly = if r.chance(0.5) { with_collinear(r, &poly, 0.3) } else { poly };
     let poly = if r.chance(0.5) { reversed(&poly) } else { poly };
     let poly = rotate_start(&poly, r.below(poly.len() as u64) as usize);
+    // a few centimetre-scale outlines (edges of a few cm): absolute tolerances of the crate bite here
+    let small = r.chance(0.06);
+    let poly: Vec<P2> = if small { poly.iter().map(|p| (p.0 * 0.02, p.1 * 0.02)).collect() } else { poly };
     let c = centroid2(&poly);
     let mut ops: Vec<Op> = vec![];
     let n = poly.len();
-    let mut note = format!("{}:{}:plane{}", fam, n, fr.kind);
+    let mut note = format!("{}:{}:plane{}{}", fam, n, fr.kind, if small { ":cm" } else { "" });
     for (i, p) in poly.iter().enumerate() {
         // perturbations before the regular push
         if i >= 1 && r.chance(0.08) { ops.push(Op::Push(fr.at(poly[i - 1].0, poly[i - 1].1), "repeat")); if r.chance(0.5) { ops.push(Op::Push(fr.at(poly[i - 1].0, poly[i - 1].1), "repeat")); } }
